@@ -35,6 +35,7 @@ func runC03(r *Report, p *Program) {
 	c03R4(h)
 	c03R5(h)
 	c03R6(h)
+	c03R7(h)
 }
 
 func nextInvokes(fn *ssa.Function) []ssa.Instruction {
